@@ -339,7 +339,7 @@ def pred_clo_ret_then_capture(chain):
 
 def pred_validator_guard_else_arm(chain):
     """an early-return validator guard on the carrier itself sits on the else arm of an opaque branch"""
-    return any(s_ in ("val_guard_same", "valerr_guard_same") and d == "else" for s_, d in chain)
+    return any(s_ in ("val_guard_same", "valerr_guard_same", "val_storedneg_guard_ok") and d == "else" for s_, d in chain)
 
 
 def pred_closure_from_inner_closure(chain):
